@@ -99,7 +99,8 @@ class CallMixin:
             raise NeedsContract(f"call of a dynamic callable `{text}` (add a calls[...] entry)", node)
         kind = f.py[0]
         if kind == "func":
-            return self.call_function(st, f.py[1], args, kwargs, node, text)
+            # Class.method(obj, ...) names the method of that class: no dynamic dispatch
+            return self.call_function(st, f.py[1], args, kwargs, node, text, static_dispatch=True)
         if kind == "bound":
             return self.call_function(st, f.py[2], [f.py[1]] + args, kwargs, node, text)
         if kind == "class":
@@ -170,9 +171,10 @@ class CallMixin:
         s2.heap, s2.heap0, s2.pc = st.heap, st.heap0, st.pc
         return self.ev(d, s2)[0].val
 
-    def call_function(self, st: State, fi: front.FuncInfo, args: List[Val], kwargs: Dict[str, Val], node, recv_text=None) -> List[Out]:
+    def call_function(self, st: State, fi: front.FuncInfo, args: List[Val], kwargs: Dict[str, Val], node, recv_text=None,
+                      static_dispatch: bool = False) -> List[Out]:
         if fi.cls is not None and not fi.is_static and not fi.is_classmethod and args and args[0].z is not None \
-                and not getattr(self, "_in_virtual", False):
+                and not getattr(self, "_in_virtual", False) and not static_dispatch:
             base_c = self.registry.get(fi.key)
             subs = [] if (base_c is not None and base_c.assumed) else self.overriding_subclasses(fi)
             if subs or ("abstractmethod" in fi.decorators and base_c is None):
